@@ -99,3 +99,12 @@ func init() {
 }
 
 var _ = types.Typ
+
+func init() {
+	reg("github.com/btcsuite/btcutil/base58.Encode", func(in *Interp, fn *ssa.Function, args []value) (value, bool) {
+		return ghostStr("b58", strOfSlice(in, args[0].(*Slice))), true
+	})
+	reg("github.com/multiformats/go-multibase.Encode", func(in *Interp, fn *ssa.Function, args []value) (value, bool) {
+		return Tuple{concatStr(lit("z"), ghostStr("b58", strOfSlice(in, args[1].(*Slice)))), Iface{}}, true
+	})
+}
